@@ -12,6 +12,7 @@ use rand::thread_rng;
 #[cfg(pgcat_verif)]
 use simcore::rand_shim::thread_rng;
 use regex::Regex;
+use std::hash::{Hash, Hasher};
 use std::collections::HashMap;
 use std::fmt::{Display, Formatter};
 use std::num::NonZeroUsize;
@@ -322,7 +323,17 @@ impl ConnectionPool {
         let mut address_id: usize = 0;
 
         for (pool_name, pool_config) in &config.pools {
-            let new_pool_hash_value = pool_config.hash_value();
+            // The plugins a pool runs come from the general section when the pool has
+            // none of its own: a change there must rebuild the pool as well.
+            let new_pool_hash_value = match pool_config.plugins {
+                Some(_) => pool_config.hash_value(),
+                None => {
+                    let mut hasher = std::collections::hash_map::DefaultHasher::new();
+                    pool_config.hash_value().hash(&mut hasher);
+                    config.plugins.hash(&mut hasher);
+                    hasher.finish()
+                }
+            };
 
             // There is one pool per database/user pair.
             for user in pool_config.users.values() {
